@@ -17,7 +17,7 @@ LEVEL_TEXT = ('Exploration: the python/* tag vocabulary x 29 target names (resol
               '(CALL events of yaml code, audit events, sys.modules, canary counters and attribute snapshots, package-state '
               'digest); the result oracle demands that python/name returns the identical pre-existing attribute of an already '
               'imported module or a ConstructorError, and that module/object/new/apply tags end in ConstructorError; the effective '
-              'FullLoader tables are compared with the permitted repertoire.')
+              'FullLoader tables are compared with the permitted repertoire.' + " Contexts include merged and duplicate entries that are constructed and then overwritten, and the value of (and entries beside) a '=' key.")
 LEVEL_NOTE = 'Held on the documents generated; attribute lookup on an imported module is what the property allows (no PEP 562 canary).'
 TECHNIQUE = 'runtime monitoring: sys.monitoring CALL events + audit hook + canaries + identity oracle over the python/* tag product'
 DESIGN_REF = 'DESIGN.md section 3, C04'
